@@ -218,7 +218,12 @@ func (d *decodeState) literal() (tengo.Object, error) {
 			n, _ := strconv.ParseFloat(string(item), 10)
 			return &tengo.Float{Value: n}, nil
 		}
-		n, _ := strconv.ParseInt(string(item), 10, 64)
+		n, err := strconv.ParseInt(string(item), 10, 64)
+		if err != nil {
+			// an integer outside the int64 range is still a number
+			f, _ := strconv.ParseFloat(string(item), 64)
+			return &tengo.Float{Value: f}, nil
+		}
 		return &tengo.Int{Value: n}, nil
 	}
 }
